@@ -453,6 +453,42 @@ func contractVerifySig(prefix, hash, sig []byte, signer common.Address) bool {
 	return len(sig) == 65 && common.BytesToAddress(out[12:]) == signer && signer != (common.Address{})
 }
 
+// emitVerifySig: op `verifysig <file> <digest> <sig65> <signer> <msgHash> <rec|->`, observation = what verifySig returns when
+// ecrecover is go-ethereum's precompile; (v, r, s) as the relayer splits them (v = 27 + normalised recovery byte).
+func (h *hCtx) emitVerifySig(digest, sig []byte, signerText string) {
+	const file = "FxBridgeLogic.sol"
+	pfx, ok := h.solPrefix[file]
+	if !ok || len(digest) != 32 {
+		return
+	}
+	msg := crypto.Keccak256(append(append([]byte{}, pfx...), digest...))
+	v := int(sig[64])
+	if v == 27 || v == 28 {
+		v -= 27
+	}
+	v += 27
+	rec := "-"
+	var recAddr common.Address
+	if v <= 255 {
+		in := make([]byte, 128)
+		copy(in[0:32], msg)
+		in[63] = byte(v)
+		copy(in[64:96], sig[0:32])
+		copy(in[96:128], sig[32:64])
+		if pc, ok := vm.PrecompiledContractsHomestead[common.BytesToAddress([]byte{1})]; ok {
+			if out, err := pc.Run(nil, &vm.Contract{Input: in}, true); err == nil && len(out) == 32 {
+				recAddr = common.BytesToAddress(out[12:])
+				rec = hex.EncodeToString(out[12:])
+			}
+		}
+	}
+	signer := common.HexToAddress(signerText)
+	res := recAddr == signer
+	h.out.Emit(fmt.Sprintf("verifysig %s %s %s %s %s %s", file, hex.EncodeToString(digest), hex.EncodeToString(sig), hex.EncodeToString(signer.Bytes()), hex.EncodeToString(msg), rec),
+		fmt.Sprintf("%t", res))
+	h.out.Count(fmt.Sprintf("verifysig:%t", res))
+}
+
 // ---- objects -----------------------------------------------------------------------------------------------------
 
 type hCtx struct {
@@ -1015,6 +1051,16 @@ func (h *hCtx) sendConfirm(c *chainT, k keyT, bridger, ext, sigText string, sign
 	op := fmt.Sprintf("confirm %s %s %s %s %s %s %s", c.name, keyArgs(k), bridger, ext, sigField, hx.Hex(signedDigest), a)
 	h.out.Emit(op, fmt.Sprintf("%s %s n=%d", kind, h.showStored(c, after, k), len(after)))
 	h.out.Count("confirm:" + class + ":" + kind)
+	if !c.tron && len(sigBytes) == 65 && strings.HasPrefix(ext, "0x") && len(ext) == 42 {
+		// the contract's verifySig on this very signature (model: `solVerifySig` over the regenerated source structure with
+		// its own Keccak; implementation side: go-ethereum's ecrecover precompile), over the digest of the named live object
+		// when there is one, else over the digest the signature was made for
+		vd := signedDigest
+		if ld := h.liveDigest(c, k.kind, k.token, k.nonce); ld != nil && h.rng.Intn(2) == 0 {
+			vd = ld
+		}
+		h.emitVerifySig(vd, sigBytes, ext)
+	}
 	h.out.Nontrivial(k.kind + "|" + class + "|" + kind + "|" + map[bool]string{true: "tron", false: "eth"}[c.tron])
 	// whole-store monitors
 	bm, am := entriesByKey(before), entriesByKey(after)
